@@ -35,12 +35,21 @@ func TestVerifC17Server(t *testing.T) {
 	for round := 0; round < rounds; round++ {
 		for _, cf := range confs {
 			id++
+			// encryption is switched on for the stream itself, or server-wide (streams.encryption) with a
+			// stream that says nothing about it
+			serverWide := id%2 == 0
 			srv := vStartServer(fmt.Sprintf("c17x%d", id), func(cfg *Config) {
 				cfg.BatchMaxMessages = cf.maxMsgs
 				cfg.BatchMaxTime = cf.maxTime
+				cfg.Streams.Encryption = serverWide
 			})
 			name := "enc"
-			err := srv.createStream(name, 1, func(q *client.CreateStreamRequest) { q.Encryption = &client.NullableBool{Value: true} })
+			err := srv.createStream(name, 1, func(q *client.CreateStreamRequest) {
+				if !serverWide {
+					q.Encryption = &client.NullableBool{Value: true}
+				}
+			})
+			stats[fmt.Sprintf("encryption-from/server-wide=%v", serverWide)]++
 			if err != nil {
 				t.Fatal(err)
 			}
@@ -52,7 +61,7 @@ func TestVerifC17Server(t *testing.T) {
 				}
 			}
 			if p.encryptionHandler == nil {
-				setViol("not-encrypted", "a stream created with encryption enabled has no encryption handler")
+				setViol("not-encrypted", fmt.Sprintf("a stream for which encryption is enabled (server-wide default: %v) has no encryption handler", serverWide))
 			}
 			// the values
 			var values [][]byte
